@@ -4,17 +4,28 @@ H = "harness/C13_instantiate.py"
 KINDS = ["TTT", "TNT", "NTN", "NNT", "TNN", "TDN", "TDD", "TTD", "ABE", "BNA", "EAB"]
 
 
+def _all_kinds():
+    import itertools
+    out = []
+    for v in itertools.product("TABEND", repeat=3):
+        if v[0] == "D" or ("D" in v and v[0] not in "TABE"):
+            continue      # a dependent const needs parameter 0 to be a type
+        out.append("".join(v))
+    return out
+
+
 def run(ctx: Ctx) -> int:
     t = ctx.pick(300, 900)
     jobs = []
     nsh = 4
-    for k in KINDS:
+    kinds = KINDS if ctx.quick else _all_kinds()
+    for k in kinds:
         for i in range(nsh):
             jobs.append(Job(H, "h_laws", timeout=t, name=f"h_laws[kinds={k},shard {i + 1}/{nsh}]", env={"VERIF_C13_KINDS": k, "VERIF_C13_SHARD": f"{i}/{nsh}"}))
         jobs.append(Job(H, "h_monomorphize", timeout=t, name=f"h_monomorphize[kinds={k}]", env={"VERIF_C13_KINDS": k, "VERIF_C13_SHARD": "0/1"}))
     ctx.functions_encoded = ["tys/ty.py: FunctionType.instantiate_partial / instantiate / unquantified, substitute, bound_vars; tys/subst.py: Instantiator, Substituter",
                              "tys/param.py: TypeParam / ConstParam with_idx, to_bound, to_existential, instantiate_bounds", "compiler/core.py: require_monomorphization, partially_monomorphize_args, compile_variable_idx"]
-    ctx.bounds = {"signatures": "3 parameters; kind vectors " + ", ".join(KINDS) + " (T / A / B / E type parameters with bounds linear / copy-only / drop-only / copy+drop, N nat const, D const whose type is parameter 0); every parameter occurs in one input (8 shape vectors covering each of 3 shapes at each position) and in the output",
+    ctx.bounds = {"signatures": "3 parameters; kind vectors " + (", ".join(KINDS) if ctx.quick else f"all {len(kinds)} well-formed vectors over T A B E N D") + " (T / A / B / E type parameters with bounds linear / copy-only / drop-only / copy+drop, N nat const, D const whose type is parameter 0); every parameter occurs in one input (8 shape vectors covering each of 3 shapes at each position) and in the output",
                   "instantiations": "all 8 masks of first-stage instantiation, 2 arguments per parameter (incl. nat/float for the type a dependent const takes its type from)"}
     ctx.outside_claim = ["run-time behaviour and HUGR of monomorphised functions (back end)", "generic structs' field instantiation (exercised under C14 and C31)", "more than 3 parameters; higher-rank function types",
                          "check_call's inference of the instantiation (C12 decides unify)"]
